@@ -110,20 +110,23 @@ inductive DateRes where
   | unsupported        -- chrono-english free-form dates
   deriving Repr, BEq
 
+/-- the interval a matched literal denotes: missing clock fields span their whole range -/
+def intervalOfParts (y mo d : Nat) (h mi se : Option Nat) : DateRes :=
+  if !validCivil y mo d then .err
+  else
+    let (h0, h1) := match h with | some v => (v, v) | none => (0, 23)
+    let (m0, m1) := match mi with | some v => (v, v) | none => (0, 59)
+    let (s0, s1) := match se with | some v => (v, v) | none => (0, 59)
+    if h0 ≥ 24 || m0 ≥ 60 || s0 ≥ 60 then .err
+    else .ok (secsOf y mo d h0 m0 s0) (secsOf y mo d h1 m1 s1)
+
 /-- `parse_datetime`; `today` = day number of the current local date. -/
 def parseDatetime (today : Int) (s : Str) : DateRes :=
   if s == ofS "today" then .ok (today * 86400) (today * 86400 + 86399)
   else if s == ofS "yesterday" then .ok ((today - 1) * 86400) ((today - 1) * 86400 + 86399)
   else
     match dateRegexFind s with
-    | some (y, mo, d, h, mi, se) =>
-      if !validCivil y mo d then .err
-      else
-        let (h0, h1) := match h with | some v => (v, v) | none => (0, 23)
-        let (m0, m1) := match mi with | some v => (v, v) | none => (0, 59)
-        let (s0, s1) := match se with | some v => (v, v) | none => (0, 59)
-        if h0 ≥ 24 || m0 ≥ 60 || s0 ≥ 60 then .err
-        else .ok (secsOf y mo d h0 m0 s0) (secsOf y mo d h1 m1 s1)
+    | some (y, mo, d, h, mi, se) => intervalOfParts y mo d h mi se
     | none =>
       if utf8LenD s ≥ 5 then .unsupported
       else if utf8LenD s ≥ 2 && (startsWith s ['+'] || startsWith s ['-']) then
